@@ -59,6 +59,10 @@ type fnLocks struct {
 	leakAt      map[int]ssa.Instruction
 	defers      []*ssa.Defer
 	hasBody     bool
+	// scoped acquirer: the function returns, on every path, a func() that releases everything the path acquired
+	// (`defer dsc.lockWith(other)()`); scopedRel is what a call of the returned function releases
+	scoped    bool
+	scopedRel lockSet
 }
 
 func (ls lockSet) has(i int) bool { return i >= 0 && ls&(1<<uint(i)) != 0 }
@@ -436,6 +440,18 @@ func (lm *LockModel) applyCall(c ssa.CallInstruction, st lstate) lstate {
 		}
 		return st
 	}
+	if c.Common().StaticCallee() == nil && !c.Common().IsInvoke() {
+		if g := scopedOrigin(c.Common().Value); g != nil {
+			if gl := lm.fl[g]; gl != nil && gl.scoped {
+				set := gl.scopedRel
+				st.acq &^= set
+				st.rel |= set
+				st.may &^= set
+				st.excl &^= set
+				return st
+			}
+		}
+	}
 	cals := lm.p.Callees(c)
 	first := true
 	var acq, rel, may, crel, excl lockSet
@@ -498,6 +514,8 @@ func (lm *LockModel) analyse(fl *fnLocks) {
 	var exitRel, exitMay, exitCrel lockSet
 	fl.leakAt = map[int]ssa.Instruction{}
 	sawExit := false
+	scopedAll := true
+	var scopedRel lockSet
 	for len(work) > 0 {
 		b := work[0]
 		work = work[1:]
@@ -534,6 +552,13 @@ func (lm *LockModel) analyse(fl *fnLocks) {
 		// terminator
 		if len(b.Succs) == 0 {
 			if ret, isRet := b.Instrs[len(b.Instrs)-1].(*ssa.Return); isRet {
+				if st.may != 0 {
+					if rs, ok := lm.releaserResult(ret); ok && st.may&^rs == 0 {
+						scopedRel |= st.may
+					} else {
+						scopedAll = false
+					}
+				}
 				exitAcq &= st.acq
 				exitExcl &= st.excl
 				exitRel |= st.rel
@@ -599,11 +624,72 @@ func (lm *LockModel) analyse(fl *fnLocks) {
 		fl.adds, fl.removes, fl.mayExit, fl.condRemoves, fl.addsExcl = 0, 0, 0, 0, 0
 		return
 	}
+	fl.scoped, fl.scopedRel = scopedAll && scopedRel != 0, scopedRel
 	fl.adds = exitAcq
 	fl.removes = exitRel &^ exitAcq
 	fl.condRemoves = exitCrel &^ exitAcq &^ fl.removes
 	fl.addsExcl = exitExcl & exitAcq
 	fl.mayExit = exitMay
+}
+
+// releaserResult: the single result of this return is a function value (closure, bound method or function) and the
+// classes it releases when called.
+func (lm *LockModel) releaserResult(ret *ssa.Return) (lockSet, bool) {
+	if len(ret.Results) != 1 {
+		return 0, false
+	}
+	sig, ok := ret.Results[0].Type().Underlying().(*types.Signature)
+	if !ok || sig.Params().Len() != 0 || sig.Results().Len() != 0 {
+		return 0, false
+	}
+	var target *ssa.Function
+	switch x := ret.Results[0].(type) {
+	case *ssa.MakeClosure:
+		target, _ = x.Fn.(*ssa.Function)
+	case *ssa.Function:
+		target = x
+	}
+	if target == nil {
+		return 0, false
+	}
+	if lm.fl[target] == nil && target.Synthetic != "" && len(target.Blocks) == 1 {
+		// bound method wrapper: one call of the method
+		for _, in := range target.Blocks[0].Instrs {
+			if call, ok := in.(*ssa.Call); ok && call.Call.StaticCallee() != nil {
+				target = call.Call.StaticCallee()
+			}
+		}
+	}
+	tl := lm.fl[target]
+	if tl == nil {
+		return 0, false
+	}
+	return tl.removes | tl.condRemoves, true
+}
+
+// scopedOrigin: the called function value is the result of a direct call (possibly kept in a local variable).
+func scopedOrigin(v ssa.Value) *ssa.Function {
+	switch x := v.(type) {
+	case *ssa.Call:
+		return x.Call.StaticCallee()
+	case *ssa.UnOp:
+		if al, ok := x.X.(*ssa.Alloc); ok {
+			var g *ssa.Function
+			n := 0
+			for _, r := range referrers(al) {
+				if st, ok := r.(*ssa.Store); ok && st.Addr == ssa.Value(al) {
+					n++
+					if call, ok := st.Val.(*ssa.Call); ok {
+						g = call.Call.StaticCallee()
+					}
+				}
+			}
+			if n == 1 {
+				return g
+			}
+		}
+	}
+	return nil
 }
 
 // condBlock: the block is the "owner token does not match" successor of the re-entrancy test.
